@@ -43,7 +43,7 @@ LABELS = ["split.outputs", "split.state", "chunks.lengths", "chunks.local_index"
 
 
 def bounds(tier):
-    n = 5 if tier == "quick" else 8
+    n = 6 if tier == "quick" else 8
     return {"signal_length_max": n, "detectors": list(C.DETECTORS), "splits": "every two-way split of every prefix "
             "length (inductive lemma with full state equality), flush on and off",
             "direct_partitions": "all 2^(m-1) partitions for m <= %d" % (4 if tier == "quick" else 6)}
@@ -57,12 +57,15 @@ prepare = C.prepare
 
 
 def cases(tier):
-    n = 5 if tier == "quick" else 8
+    n = 6 if tier == "quick" else 8
     out = []
     for det in C.DETECTORS:
         for m in range(1, n + 1):
             for flush in (False, True):
-                out.append({"mode": "lemma", "det": det, "m": m, "flush": flush, "_weight": 5 ** m})
+                c = {"mode": "lemma", "det": det, "m": m, "flush": flush, "_weight": 5 ** m}
+                if m >= 6:
+                    c["_split"] = 2 * m - 6
+                out.append(c)
         for m in range(3, (4 if tier == "quick" else 6) + 1):
             out.append({"mode": "partitions", "det": det, "m": m, "flush": False, "_weight": 5 ** m * 2})
     return out
